@@ -137,7 +137,17 @@ def _writes_through(repo, cls, fn, params, depth=0, memo=None):
     helper that writes through the corresponding parameter is a write.
     -> list of (stmt, param, kind)"""
     alias = {p: p for p in params}      # local name -> parameter
+    elems = set()       # names bound to the elements of an aliased container
     findings = []
+    leaky = _leaky_getters(repo) if depth == 0 else {}
+
+    def borrowed(value):
+        """positions of a call result that are the callee's own fields"""
+        if isinstance(value, ast.Call) and isinstance(
+                value.func, ast.Attribute) and value.func.attr in leaky \
+                and _self_field(value.func.value) is not None:
+            return leaky[value.func.attr], '%s()' % U(value.func)
+        return None, None
 
     def helper_writes(call):
         f = call.func
@@ -178,9 +188,25 @@ def _writes_through(repo, cls, fn, params, depth=0, memo=None):
             if isinstance(s, (ast.If, ast.For, ast.While, ast.With,
                               ast.Try)):
                 if isinstance(s, ast.For):
+                    src = _aliases(s.iter, alias)
+                    it = s.iter
+                    if src is None and isinstance(it, ast.Call) and U(
+                            it.func) in ('enumerate', 'reversed', 'iter') \
+                            and it.args:
+                        src = _aliases(it.args[0], alias)
+                    tg = s.target
+                    if src is not None and isinstance(it, ast.Call) and U(
+                            it.func) == 'enumerate' and isinstance(
+                            tg, ast.Tuple) and len(tg.elts) == 2:
+                        tg = tg.elts[1]
                     for x in ast.walk(s.target):
                         if isinstance(x, ast.Name):
                             alias.pop(x.id, None)
+                    # the elements of an aliased list / the rows of an
+                    # aliased array are the caller's objects as well
+                    if src is not None and isinstance(tg, ast.Name):
+                        alias[tg.id] = alias[src]
+                        elems.add(tg.id)
                 for c in ast.walk(getattr(s, 'test', None) or getattr(
                         s, 'iter', None) or ast.Pass()):
                     if isinstance(c, ast.Call):
@@ -215,23 +241,37 @@ def _writes_through(repo, cls, fn, params, depth=0, memo=None):
                         if a:
                             findings.append((s, alias[a], 'element store'))
                 # rebinding
+                pos, what = borrowed(s.value)
                 if len(s.targets) == 1 and isinstance(
                         s.targets[0], ast.Name):
                     t = s.targets[0].id
                     a = _aliases(s.value, alias)
+                    if a and a in elems and isinstance(
+                            s.value, ast.Subscript) and not isinstance(
+                            s.value.slice, ast.Slice):
+                        # one entry of an element (`start = s[2]`): a value,
+                        # not a container
+                        a = None
+                    elems.discard(t)
                     if a:
                         alias[t] = alias[a]
+                        if a in elems:
+                            elems.add(t)
+                    elif pos is not None and None in pos:
+                        alias[t] = 'the result of %s' % what
                     else:
                         alias.pop(t, None)
                 elif len(s.targets) == 1 and isinstance(
                         s.targets[0], ast.Tuple):
-                    for x in s.targets[0].elts:
+                    for k_, x in enumerate(s.targets[0].elts):
                         if isinstance(x, ast.Name):
                             alias.pop(x.id, None)
+                            if pos is not None and k_ in pos:
+                                alias[x.id] = 'the result of %s' % what
             elif isinstance(s, ast.AugAssign):
                 if isinstance(s.target, ast.Name):
                     a = s.target.id if s.target.id in alias else None
-                    if a:
+                    if a and a not in elems:
                         findings.append((s, alias[a], 'in-place %s=' % {
                             ast.Add: '+', ast.Sub: '-', ast.Mult: '*',
                             ast.Div: '/'}.get(type(s.op), 'op')))
@@ -241,6 +281,42 @@ def _writes_through(repo, cls, fn, params, depth=0, memo=None):
                         findings.append((s, alias[a], 'element update'))
     visit(fn.body)
     return findings
+
+
+_LEAKY = {}
+
+
+def _leaky_getters(repo):
+    """Public getters that hand out one of the object's own mutable fields
+    (no copy): method name -> positions of the returned tuple that are such
+    fields (None = the returned value itself)."""
+    key = id(repo)
+    if key in _LEAKY:
+        return _LEAKY[key]
+    out = {}
+    mut = {}
+    for cname, c in repo.classes.items():
+        if c.relpath.startswith(SKIP):
+            continue
+        for m, fn in c.methods.items():
+            if m.startswith('_') or not m.startswith('get_'):
+                continue
+            for r in ast.walk(fn):
+                if not (isinstance(r, ast.Return) and r.value is not None):
+                    continue
+                vals = list(enumerate(r.value.elts)) if isinstance(
+                    r.value, ast.Tuple) else [(None, r.value)]
+                for pos, v in vals:
+                    a = _field_alias(v, {})
+                    if not a:
+                        continue
+                    if cname not in mut:
+                        mut[cname] = _mutable_fields(repo, cname)
+                    if a in mut[cname]:
+                        out.setdefault(m, set()).add(pos)
+    _LEAKY.clear()
+    _LEAKY[key] = out
+    return out
 
 
 def r19_2(ctx, repo):
@@ -255,7 +331,11 @@ def r19_2(ctx, repo):
             continue
         params = [a.arg for a in fn.args.args if a.arg not in ('self',)]
         params = [p for p in params if p not in SCALAR_PARAMS]
-        if not params:
+        uses_getter = cls and any(
+            isinstance(c, ast.Call) and isinstance(c.func, ast.Attribute)
+            and c.func.attr in _leaky_getters(repo)
+            for c in ast.walk(fn))
+        if not params and not uses_getter:
             continue
         n += 1
         construct = '%s.%s' % (cls, fn.name) if cls else fn.name
@@ -270,9 +350,13 @@ def r19_2(ctx, repo):
                 ctx.violation(
                     rule, repo.loc(s, cls, fn.name), construct,
                     'write-through %s' % p,
-                    '`%s` (%s) modifies an object that still aliases the '
-                    'argument `%s`: the caller\'s array / list / frame is '
-                    'changed by the call' % (norm_stmt(s)[:60], kind, p))
+                    '`%s` (%s) modifies an object that still aliases %s: '
+                    'the %s array / list / frame is changed by the call' % (
+                        norm_stmt(s)[:60], kind,
+                        p if p.startswith('the result') else
+                        'the argument `%s`' % p,
+                        'sub-model\'s own' if p.startswith('the result')
+                        else 'caller\'s'))
         else:
             ctx.ok(rule, where, construct,
                    'no store through an alias of %s' % ', '.join(params[:4]))
